@@ -49,6 +49,8 @@ def import_library():
     import warnings
 
     warnings.filterwarnings("ignore")
+    if sys.flags.bytes_warning >= 2:
+        warnings.filterwarnings("error", category=BytesWarning)   # an interpreter started with -bb means it
     if os.environ.get("VERIF_WARNINGS") == "error":
         # (child interpreters of the "warnings as errors" sub-checks) what an application's test configuration typically turns into
         # exceptions; numeric RuntimeWarnings stay silent - the harness itself casts and overflows on purpose
